@@ -8,7 +8,7 @@ BASE = "cd /repo && /venv/bin/python -m pytest -ra -q -p no:cacheprovider --time
 # id -> (level category, technique, level text, level note, design ref)
 CHECKS = {
  "C01": ("exploration", "reference-model row monitor over solve() tables (documented laws, tolerance algebra from the solver's stopping rule) + polarity-mirror differential twin",
-         "Every component row of every table returned for randomized well-formed trees (all 11 kinds, tables, both polarities, multi-source, PMux, phases) is judged against an independent implementation of the documented laws with structure taken from the spec; a mirrored-supply twin is solved through the real code and compared. Held on the executions observed.",
+         "Every component row of every table returned for randomized well-formed trees (all 11 kinds, tables, both polarities, multi-source, PMux, phases) is judged against an independent implementation of the documented laws with structure taken from the spec; a mirrored-supply twin is solved through the real code and compared; the repository's own 91 tests are additionally run under the same row monitor (pytest plugin, structure from the live graph). Held on the executions observed.",
          "Trusted: the reference laws in slmon/model.py (written from docstrings/property text); numpy allclose atol=1e-8 as the residual bound; general 2-D tables checked by corner-range interval.", "4/C01"),
  "C02": ("exploration", "runtime conservation monitor (row energy identity, loss/efficiency ranges, thermal identities, per-phase system balance) on solve() tables",
          "Arithmetic identities of the property are evaluated on every row and every phase of every returned table over randomized systems, ambients and thermal resistances; tolerances derived from the solver's stopping rule.",
